@@ -208,7 +208,11 @@ def disptex(matrix, title,  nd = 3, pdims = True, h=""):
     for i in range(shape[0]):
         #strr+= "\\hline\n"
         for j in range(shape[1]):
-            strr+= str(round(matrix[i, j], nd))
+            val = matrix[i, j]
+            if not hasattr(val, '__round__'):
+                #numpy.bool has no __round__
+                val = float(val)
+            strr+= str(round(val, nd))
             if j != shape[1] - 1:
                 strr+=" & "
                 continue
